@@ -460,6 +460,15 @@ def mk_op(op, a, b, ty, cons):
             return ('op', op, a, b, ty)
         v = _PYOP[op](a[1], b[1])
         return C(wrap_val(v, ty) if ty else v)
+    # an operand that can only have one value under the constraints of this path is that constant
+    # (a shift amount `status & 15` with the status byte fixed, for instance)
+    if b[0] not in ('c', 'app') and not (b[0] == 't' and b[2] == 'opaque'):
+        vb = vs_of(b, cons)
+        if vb.single():
+            b = C(vb.lo)
+            if a[0] == 'c' and op in _PYOP and not (op in ('Div', 'Rem') and b[1] == 0):
+                v = _PYOP[op](a[1], b[1])
+                return C(wrap_val(v, ty) if ty else v)
     # canonical operand order for commutative ops: constant last, otherwise by repr
     if op in ('BitAnd', 'BitOr', 'BitXor', 'Add', 'Mul'):
         if a[0] == 'c' or (b[0] != 'c' and repr(a) > repr(b)):
@@ -480,6 +489,14 @@ def mk_op(op, a, b, ty, cons):
         m = _vs_op(op, vs_of(a, cons), vs_of(b, cons))
         if not m.empty() and m.subset(ty_vs(ty)) and m.lo > -INF and m.hi < INF:
             t = ('op', op, a, b, None)     # no wrap-around possible: exact
+    # a bit-level expression all of whose bits are known is a constant: ((x & !8 | 8) >> 3) & 1 is 1
+    if op in ('BitAnd', 'Shr') and b[0] == 'c' and a[0] == 'op':
+        try:
+            rb = _bits(t, cons, 32)
+        except Exception:      # noqa
+            rb = None
+        if rb is not None and all(x in (0, 1) for x in rb):
+            return C(sum(x << j for j, x in enumerate(rb)))
     # exact (x +/- c0) +/- c1  ->  x +/- (c0 +/- c1); in particular (x + 32) - 32 -> x
     if t[4] is None and op in ('Add', 'Sub') and b[0] == 'c' and a[0] == 'op' and a[1] in ('Add', 'Sub') and a[4] is None and a[3][0] == 'c':
         k0 = a[3][1] if a[1] == 'Add' else -a[3][1]
